@@ -31,6 +31,7 @@ MODELS_EXACT = [
     ([('conv', 1, 2, [2, 2], [1, 1], [0, 0], 1), ('relu',), ('flatten',), ('linear', 8, 2, 1)], [1, 3, 3]),   # 2x2 outputs: spatial 4
     ([('conv', 2, 1, [3, 2], [2, 1], [1, 0], 0), ('flatten',), ('linear', 4, 2, 1)], [2, 3, 3]),            # oh=2, ow=2
     ([('conv', 1, 2, [1, 3], [1, 2], [0, 1], 1)], [1, 2, 4]),                                               # oh=2, ow=2 with width padding
+    ([('conv', 2, 2, [1, 1], [2, 2], [0, 0], 1), ('flatten',), ('linear', 8, 2, 0)], [2, 3, 3]),            # pointwise kernel with stride 2: oh=ow=2
 ]
 MODELS_GEN = MODELS_EXACT + [
     ([('conv', 2, 2, [2, 3], [1, 2], [1, 1], 1), ('relu',), ('flatten',), ('linear', 24, 3, 1)], [2, 3, 5]),
